@@ -663,6 +663,10 @@ impl ast::SetComprehension {
 
 impl ast::Capture {
     fn evaluate_lazy(&self, exec: &mut ExecutionContext) -> Result<LazyValue, ExecutionError> {
+        if self.quantifier == tree_sitter::CaptureQuantifier::Zero {
+            // not resolved by the checker, which does not visit attribute shorthands
+            return Err(ExecutionError::UndefinedCapture(format!("{}", self)));
+        }
         Ok(Value::from_nodes(
             exec.graph,
             exec.mat
